@@ -113,7 +113,10 @@ theorem gnVarDef_inv (v : VarDef) (x : X) (hx : Inv x) : AllInv Inv Ok (gnVarDef
   · cases v.default with
     | none => exact AllInv.nil Inv Ok
     | some dv => exact gnValue_inv down Inv Ok hstep dv _ h
-  · exact AllInv.node down Inv Ok hstep h fun _ => AllInv.nil Inv Ok
+  · have h1 : AllInv Inv Ok [((Node.typeNode v.type), down (.typeNode v.type) (down (.varDef v) x))] :=
+      AllInv.node down Inv Ok hstep h fun _ => AllInv.nil Inv Ok
+    have h2 := gnDirs_inv down Inv Ok hstep v.dirs _ h
+    simpa using AllInv.append Inv Ok h1 h2
 
 theorem gnDef_inv (d : Def) (x : X) (hx : Inv x) : AllInv Inv Ok (gnDef down x d) := by
   cases d with
